@@ -13,6 +13,7 @@ static unsigned char* vm_written[VM_MAXOBJ]; /* per cell: has the program stored
 static int vm_nobj;
 static W vm_tid, vm_kt;
 static int vm_dead;
+static W vm_cas_ok;
 static int vm_failed;
 #define VM_ASSERT(c, msg) do { if (!(c)) { printf("ASSERTION FAILED: %s\n", msg); vm_failed = 1; } } while (0)
 #define VM_FENCE() __sync_synchronize()
